@@ -95,6 +95,20 @@ def base_entries(target):
         {"k": "if", "c": S("UB"), "children": [mk_config("HELP_IF", "bool", defaults=[{"v": ["y"], "c": Y}])]},
         {"k": "menu", "title": "hm", "dep": ["<", S("UI"), C("5")], "visif": Y, "children": [mk_config("HELP_N", "int", defaults=[{"v": C("4"), "c": Y}])]},
     ]
+    # promptless options a user option reaches through imply / set / set default: not fixed by the target
+    ub3 = g("UB3")
+    ub3["implies"].append({"t": "IMPL_H", "c": Y})
+    ub3["sets"].append({"t": "SET_N", "v": C("3"), "c": Y, "str": False})
+    ub3["wsets"].append({"t": "WSET_N", "v": C("3"), "c": Y, "str": False})
+    ents += [
+        ub3,
+        mk_config("IMPL_H", "bool"),
+        mk_config("SET_N", "int", defaults=[{"v": C("1"), "c": Y}]),
+        mk_config("WSET_N", "int", defaults=[{"v": C("1"), "c": Y}]),
+        mk_config("DOC_IMPL", "bool", prompt=Y, dep=S("IMPL_H")),
+        mk_config("DOC_SET", "bool", prompt=Y, dep=[">", S("SET_N"), C("2")]),
+        mk_config("DOC_WSET", "bool", prompt=Y, dep=[">", S("WSET_N"), C("2")]),
+    ]
     m = lambda n, p=Y: mk_config(n, "bool", prompt=p)  # noqa: E731
     ents += [
         {"k": "choice", "id": "CHD", "title": "mode", "prompt": [Y], "dep": Y, "defaults": [{"m": "MB", "c": S("IDF_TARGET_CHIPB")}],
@@ -106,6 +120,7 @@ def base_entries(target):
     ]
     vars_ = [
         {"n": "CHD", "kind": "choice", "cands": [NOVAL, "MC"]},
+        {"n": "UB3", "kind": "sym", "cands": [NOVAL, "y"]},
         {"n": "HIDP", "kind": "sym", "cands": [NOVAL, "n"]},
         {"n": "FORCED", "kind": "sym", "cands": [NOVAL, "y"]},
         {"n": "UB", "kind": "sym", "cands": [NOVAL, "y"]},
